@@ -55,6 +55,9 @@ pub struct World {
     pub wire_override: Option<crate::http::WireReq>,
     /// raw HTTP response of the last request
     pub last_raw: Option<crate::http::RawResp>,
+    /// after an injected fault in the HTTP create-then-retry path, a client the model does not
+    /// know may exist holding nothing (absent and empty are not distinguished then)
+    pub tolerate_empty_clients: bool,
 }
 
 pub struct StepOut {
@@ -103,6 +106,7 @@ impl World {
             t0: sched::now_us(),
             wire_override: None,
             last_raw: None,
+            tolerate_empty_clients: false,
         };
         w.proj = w.take_projection()?;
         Ok(w)
@@ -170,6 +174,9 @@ impl World {
             let m = match m {
                 None => {
                     if let Some(p) = p {
+                        if self.tolerate_empty_clients && p.latest.is_nil() && p.snap.is_none() && p.versions.is_empty() {
+                            continue;
+                        }
                         out.push(viol(
                             &["C02", "C09", "C18", "C15", "C14"],
                             "state.unexpected_client",
@@ -925,11 +932,11 @@ pub fn exec(plan: &SeqPlan) -> RunOut {
         if plan.walk_every > 0 && (i + 1) % plan.walk_every as usize == 0 {
             w.full_check(&mut out);
         }
-        if !out.violations.is_empty() {
+        if crate::report::should_stop(&out) {
             break;
         }
     }
-    if out.violations.is_empty() {
+    if !crate::report::should_stop(&out) {
         w.full_check(&mut out);
     }
     out.bump(&format!("cfg.backend.{:?}", plan.backend));
